@@ -34,11 +34,12 @@ structure St where
   authed : List Nat            -- passed authentication, in that order
   discarded : List Nat
   primary : Option Nat         -- the receiver's transfer connection
+  gaveUp : Bool                -- ProbeAndDial returned "all probes failed"
   deriving DecidableEq, Repr
 
 def init (k : Nat) : St :=
   { tasks := List.replicate k .probing, claimed := false, winner := none, slot := none, returned := none,
-    ctxCancelled := false, queue := [], seen := [], pending := [], authed := [], discarded := [], primary := none }
+    ctxCancelled := false, queue := [], seen := [], pending := [], authed := [], discarded := [], primary := none, gaveUp := false }
 
 inductive Step
   | clientDone (i : Nat)       -- `tr.Dial` returns a connection
@@ -46,6 +47,7 @@ inductive Step
   | cancelSeen (i : Nat)       -- a dial in flight observes the cancelled context
   | claim (i : Nat)            -- `claimed.CompareAndSwap(false, true)` and what follows
   | mainRecv                   -- the caller receives from the result channel, returns, the deferred cancel fires
+  | mainGiveUp                 -- every dial goroutine has finished and the channel is empty: "all probes failed"
   | srvDone (i : Nat)          -- the listener completes the handshake of candidate i's connection
   | accept                     -- `transport.Accept` returns the next completed connection; its authentication starts
   | authOk (i : Nat)
@@ -71,6 +73,13 @@ def step (s : St) : Step → Option St
     match s.slot, s.returned with
     | some i, none => some { s with slot := none, returned := some i, ctxCancelled := true }
     | _, _ => none
+  | .mainGiveUp =>
+    -- `allDone` is closed only after every counted dial goroutine has returned (the wait starts after all of them
+    -- are counted), and a claimed connection in the channel is taken first
+    if s.returned = none ∧ s.gaveUp = false ∧ s.slot = none ∧
+        s.tasks.all (fun t => t == .failed || t == .cancelled || t == .closedLoser) then
+      some { s with gaveUp := true, ctxCancelled := true }
+    else none
   | .srvDone i =>
     -- (over-approximation: also for a connection whose dial is cancelled or closed afterwards, or was already)
     if i < s.tasks.length ∧ task s i ≠ .failed ∧ i ∉ s.seen then
